@@ -552,6 +552,17 @@ def _enclosing_if_tests(mod: Module, node, func_node) -> Set[Tuple[str, bool]]:
     """(normalised test text, polarity) of every `if` whose true branch (polarity True) or else branch
     (polarity False) contains `node`; a leading `not` is folded into the polarity."""
     out = set()
+
+    def add(t, pol):
+        while isinstance(t, ast.UnaryOp) and isinstance(t.op, ast.Not):
+            t = t.operand
+            pol = not pol
+        if isinstance(t, ast.BoolOp) and ((isinstance(t.op, ast.And) and pol) or (isinstance(t.op, ast.Or) and not pol)):
+            # `a and b` holding means both hold; `a or b` failing means both fail
+            for v in t.values:
+                add(v, pol)
+            return
+        out.add((norm_text(t), pol))
     cur = node
     parent = mod.parent(cur)
     while parent is not None and cur is not func_node:
@@ -562,11 +573,18 @@ def _enclosing_if_tests(mod: Module, node, func_node) -> Set[Tuple[str, bool]]:
             elif any(cur is s for s in parent.orelse):
                 pol = False
             if pol is not None:
-                t = parent.test
-                while isinstance(t, ast.UnaryOp) and isinstance(t.op, ast.Not):
-                    t = t.operand
-                    pol = not pol
-                out.add((norm_text(t), pol))
+                add(parent.test, pol)
+        elif isinstance(parent, ast.IfExp):
+            if cur is parent.body:
+                add(parent.test, True)
+            elif cur is parent.orelse:
+                add(parent.test, False)
+        elif isinstance(parent, ast.BoolOp):
+            # short circuit: a later operand of `and` is evaluated only when the earlier ones held (of `or`: failed)
+            k = next((i for i, v in enumerate(parent.values) if v is cur), None)
+            if k:
+                for v in parent.values[:k]:
+                    add(v, isinstance(parent.op, ast.And))
         cur = parent
         parent = mod.parent(cur)
     return out
@@ -593,9 +611,25 @@ def definite_assignment_findings(mod: Module, fi: FuncInfo):
                 except SyntaxError:
                     continue
                 rebound = False
-                for n in ast.walk(fi.node):
-                    if isinstance(n, ast.Name) and isinstance(n.ctx, (ast.Store, ast.Del)) and n.id in names:
-                        rebound = True
+                stores = [n for n in ast.walk(fi.node) if isinstance(n, ast.Name) and isinstance(n.ctx, (ast.Store, ast.Del)) and n.id in names]
+                if stores:
+                    # a guard operand bound exactly once, by a top-level statement of the function that precedes every
+                    # definition and the use, is a constant for the rest of the call (e.g. `use_hull = method is X`)
+                    top = {}
+                    for k_, st_ in enumerate(fi.node.body):
+                        for sub in ast.walk(st_):
+                            top[id(sub)] = k_
+                    per_name = {}
+                    for n in stores:
+                        per_name.setdefault(n.id, []).append(n)
+                    first_site = min([top.get(id(use), -1)] + [top.get(id(d), -1) for d in def_nodes])
+                    for nm_, ns in per_name.items():
+                        st_k = top.get(id(ns[0]), None)
+                        single_top = (len(ns) == 1 and isinstance(ns[0].ctx, ast.Store) and st_k is not None
+                                      and isinstance(fi.node.body[st_k], ast.Assign) and ns[0] in fi.node.body[st_k].targets
+                                      and st_k < first_site)
+                        if not single_top:
+                            rebound = True
                 if not rebound:
                     idiom = t
                     break
